@@ -61,7 +61,8 @@ def settle(ctx, batch, verdicts):
             if len(ctx.extra["amoco_exceptions_examples"]) < 5:
                 ctx.extra["amoco_exceptions_examples"].append({"mode": mode, "bytes": b.hex(), "exc": a["exc"][:120]})
         if v is None:       # plain: in the specification's domain, binding ok, property ok, no branch judged
-            if r["al"] >= 0:
+            # (bookkeeping only) it was a judged case when amoco decoded it and an expected value existed
+            if r["al"] >= 0 and (r["live"] == 0 or r["rl"] >= 0):
                 nj[src] = nj.get(src, 0) + 1
                 ctx.case(key=(mode, a["fmt"], a["al"]))
             continue
